@@ -64,6 +64,14 @@ type Ctx struct {
 
 	res      *Result
 	outcomes map[string]struct{}
+	flush    func()
+}
+
+// Flush writes the result file now (used by watchdogs that are about to end the process).
+func Flush(c *Ctx) {
+	if c.flush != nil {
+		c.flush()
+	}
 }
 
 const maxOutcomes = 200000
@@ -181,12 +189,14 @@ func Main(t *testing.T, props map[string]Prop) {
 			deadline = time.Unix(v, 0)
 		}
 	}
+	var write func()
 	mk := func(name string) *Ctx {
 		return &Ctx{T: t, Property: prop, Tier: tier, Scenario: name, Deadline: deadline,
-			Scratch: os.Getenv("VERIF_SCRATCH"), Params: params, res: res, outcomes: outcomes}
+			Scratch: os.Getenv("VERIF_SCRATCH"), Params: params, res: res, outcomes: outcomes, flush: func() { write() }}
 	}
-	write := func() {
+	write = func() {
 		res.WallS = time.Since(start).Seconds()
+		res.Outcomes = res.Outcomes[:0]
 		for k := range outcomes {
 			res.Outcomes = append(res.Outcomes, k)
 		}
